@@ -176,6 +176,8 @@ mod dns_parser;
 mod error;
 mod service_daemon;
 mod service_info;
+#[cfg(feature = "verif-hooks")]
+pub mod verif_hooks;
 
 pub use dns_parser::{InterfaceId, RRType, ScopedIp, ScopedIpV4, ScopedIpV6};
 pub use error::{Error, Result};
@@ -195,6 +197,10 @@ use std::time::SystemTime;
 
 /// Returns the current time in milliseconds since the UNIX epoch.
 pub(crate) fn current_time_millis() -> u64 {
+    #[cfg(feature = "verif-hooks")]
+    if let Some(t) = verif_hooks::virtual_now() {
+        return t;
+    }
     SystemTime::now()
         .duration_since(SystemTime::UNIX_EPOCH)
         .expect("failed to get current UNIX time")
